@@ -29,7 +29,7 @@ Match(h, st) == h.a = st.a /\ h.p = st.p /\ h.args = st.args
 \* the action the recorded step names, with the recorded arguments (one successor per step, no enumeration)
 Member(st) ==
     LET p == st.p  ar == st.args IN
-    CASE st.a = "GenKeyPackage" -> (IF ar.bad # "" THEN GenBadKeyPackage(p, ar.bad) ELSE (GenKeyPackage(p) \/ GenSuccKeyPackage(p)))
+    CASE st.a = "GenKeyPackage" -> (IF ar.bad # "" THEN GenBadKeyPackage(p, ar.bad) ELSE (GenKeyPackage(p, ar.lr) \/ (~ar.lr /\ GenSuccKeyPackage(p))))
       [] st.a = "Propose" ->
             (CASE ar.kind = "add" -> ProposeAdd(p, ar.kp)
                [] ar.kind = "rem" -> ProposeRemove(p, ar.target)
